@@ -82,9 +82,8 @@ func c18ModelSetup(in *mj.Interp) {
 		return nil
 	}
 	in.Funcs["apiSetOrLet"] = func(in *mj.Interp, a []interface{}) interface{} {
-		if _, ok := in.APIResolve(a[0].(string)); ok {
-			in.APISet(a[0].(string), a[1])
-		} else {
+		// Set if there is such a variable, else Let (a name that only resolves to a global or a built-in is no variable)
+		if !in.APISet(a[0].(string), a[1]) {
 			in.APILet(a[0].(string), a[1])
 		}
 		return nil
@@ -175,6 +174,13 @@ func (g *c18Gen) stmts(depth int, vis []string) []*mj.Node {
 				out = append(out, mj.Let(name, mj.Nil()), mj.If(mj.Bool(true), []*mj.Node{mj.Let(g.id("open"), mj.Num(0)), api("apiSetOrLet", mj.Str(name), g.val())}, nil),
 					mj.Text("("+name+" after="), mj.Print(mj.Var(name)), mj.Text(")"))
 				vis = with(vis, name)
+				continue
+			}
+			if g.n(0, 3, "setOrLetGlobalName") == 0 {
+				// a name that resolves, but only to a Set global / a built-in: there is nothing to Set, so it is declared
+				gname := []string{"gset", "lower"}[g.n(0, 1, "solName")]
+				g.labels["api-setorlet-on-a-name-that-is-only-a-global"] = true
+				out = append(out, api("apiSetOrLet", mj.Str(gname), g.val()), mj.Text("("+gname+" now="), mj.Print(mj.Var(gname)), mj.Text(")"))
 				continue
 			}
 			out = append(out, api("apiSetOrLet", mj.Str(name), g.val()))
@@ -310,13 +316,22 @@ func genC18(t *rapid.T) c18Case {
 		return genC18Args(t)
 	}
 	g := &c18Gen{t: t, labels: map[string]bool{}}
-	g.p = &mj.Program{Entry: "/main.jet", Vars: map[string]mj.Recipe{"ev": mj.RStr("EV0")}}
+	g.p = &mj.Program{Entry: "/main.jet", Vars: map[string]mj.Recipe{"ev": mj.RStr("EV0")}, Globals: map[string]mj.Recipe{"gset": mj.RStr("GSET")}}
 	d := mj.RStr("CTX")
 	g.p.Data = &d
 	main := &mj.File{Path: "/main.jet"}
 	g.p.Files = []*mj.File{main}
-	body := []*mj.Node{mj.Text("<"), {K: "block", Name: "shared", Body: []*mj.Node{mj.Text("{shared .="), mj.Print(mj.Dot()), mj.Text("}")}}}
-	body = append(body, g.stmts(0, []string{"ev"})...)
+	// (a block with a parameter: yielded from Go code it gets its default like everywhere else)
+	body := []*mj.Node{mj.Text("<"), {K: "block", Name: "shared", Params: []mj.Param{{Name: "sp", E: mj.Str("sp-default")}}, Body: []*mj.Node{mj.Text("{shared .="), mj.Print(mj.Dot()), mj.Text(" sp="), mj.Print(mj.Var("sp")), mj.Text("}")}}}
+	vis0 := []string{"ev"}
+	if g.n(0, 4, "noVarMap") == 0 {
+		// Execute(w, nil, data): the first thing that happens is a declaration through the API
+		g.p.NilVars, g.p.Vars, vis0 = true, map[string]mj.Recipe{}, nil
+		g.labels["executed-without-a-varmap"] = true
+		fn := []string{"apiLet", "apiLetGlobal", "apiSetOrLet"}[g.n(0, 2, "firstApi")]
+		body = append(body, api(fn, mj.Str("first"), mj.Str("F")), mj.Text("(first="), mj.Print(mj.Var("first")), mj.Text(")"))
+	}
+	body = append(body, g.stmts(0, vis0)...)
 	for i := 1; i <= g.nglob; i++ {
 		gn := fmt.Sprintf("glob%d", i)
 		body = append(body, mj.Text("(end "+gn+"="), mj.Print(mj.Var(gn)), mj.Text(")"))
